@@ -167,6 +167,26 @@ def unsized_case():
     return c
 
 
+def link_case():
+    """fields that are references to the derived type itself: compared by the referent's own ==, never by address"""
+    from .. import harness as H
+    text = ("#[derive(::educe::Educe)]\n#[educe(PartialEq)]\npub enum List<'a> {\n    Nil,\n    Cons(f64, &'a List<'a>),\n    Named { head: f64, tail: &'a Self },\n}\n"
+            "#[derive(::educe::Educe)]\n#[educe(PartialEq)]\npub struct Node<'a> {\n    pub v: f64,\n    pub next: ::core::option::Option<&'a Node<'a>>,\n    pub same: &'a f64,\n}\n")
+    drive = ("        let nil = List::Nil; let nan_tail = List::Cons(f64::NAN, &nil); let ok_tail = List::Cons(1.0, &nil);\n"
+             "        let (a, b) = (List::Cons(2.0, &nan_tail), List::Cons(2.0, &nan_tail));\n"
+             "        let (n1, n2) = (List::Named { head: 2.0, tail: &nan_tail }, List::Named { head: 2.0, tail: &nan_tail });\n"
+             "        let nan = f64::NAN; let one = 1.0f64; let base = Node { v: 0.0, next: ::core::option::Option::None, same: &nan };\n"
+             "        let (s1, s2) = (Node { v: 1.0, next: ::core::option::Option::Some(&base), same: &one }, Node { v: 1.0, next: ::core::option::Option::Some(&base), same: &one });\n"
+             "        let (c1, c2) = (List::Cons(2.0, &ok_tail), List::Cons(2.0, &ok_tail));\n"
+             "        let good = Node { v: 0.0, next: ::core::option::Option::None, same: &one };\n"
+             "        let (g1, g2) = (Node { v: 1.0, next: ::core::option::Option::Some(&good), same: &one }, Node { v: 1.0, next: ::core::option::Option::Some(&good), same: &one });\n"
+             "        %sbegin(); %sobs(\"link\", \"link\", 0, -1, &format!(\"{} {} {} {} {} {}\", (a == b) as u8, (a == a) as u8, (n1 == n2) as u8, (s1 == s2) as u8, (c1 == c2) as u8, (g1 == g2) as u8));"
+             % (RT, RT))
+    c = BH.Case("link", None, text, [], drive=drive, info={})
+    c.module = lambda c=c: H.module(c.cid, "#![allow(clippy::eq_op)]\n" + c.text + "pub fn run() {\n    %sguarded(\"%s\", || {\n%s\n    });\n}\n" % (RT, c.cid, c.drive))
+    return c
+
+
 def judge_unsized(chk, c, obs, dropped):
     if c.cid in dropped:
         d = dropped[c.cid][0]
@@ -212,8 +232,21 @@ def main(tier, seed, scale=1.0):
         for c in cases:
             judge(chk, c, obs, dropped)
     uc = unsized_case()
-    obs, dropped, crashed, _, _ = BH.execute("c02u", [uc])
+    lk = link_case()
+    obs, dropped, crashed, _, _ = BH.execute("c02u", [uc, lk])
     judge_unsized(chk, uc, obs, dropped)
+    o = obs.get("link")
+    if "link" in dropped or o is None or not o.recs:
+        chk.inconc("self-link-not-run")
+    else:
+        chk.evaluations += 1
+        if o.recs[0][3][0] != "0 0 0 0 1 1":
+            chk.violation("self-link", "two links to the SAME node are equal only if that node equals itself (it holds a NaN here)\n"
+                          "observed %s, expected 0 0 0 0 1 1 (a == b, a == a, named, struct; controls with a NaN-free node)\n%s" % (o.recs[0][3][0], lk.text),
+                          {"case.rs": lk.module()})
+        else:
+            chk.held("self-link", True, 1)
+            chk.count("self-link")
     # differential family: parameter-free requests over std field types against std's derives
     tw = TW.cases(seed, PROP, max(40, n // 4), "eq")
     obs, dropped, crashed, _, _ = BH.execute("c02w", tw)
